@@ -452,13 +452,91 @@ fn golden_block(ctx: &Ctx) {
     }
 }
 
+/// The shipped tool against the specification, both directions, with passwords whose edges are
+/// whitespace (a canonicalising input layer would be symmetric and invisible to a CLI-only round trip).
+fn cli_conformance(ctx: &Ctx) {
+    use crate::cli::{keyring_text, Cmd, Exit, Ident, Stdin, WorkDir};
+    let mut rng = Rng::fork(ctx.seed, "C06-cli");
+    let wd = WorkDir::new("c06");
+    let pws: Vec<String> = vec!["plain".into(), "trailing space ".into(), " leading".into(), "tab\t".into(), "nl\n".into(), "ideographic\u{3000}".into(), "".into(), "  ".into(), "p\u{e4}ss".into()];
+    let wdp = &wd;
+    let pt = rng.bytes(65536 + 321);
+    let salts: Vec<[u8; 32]> = (0..pws.len()).map(|_| rng.arr32()).collect();
+    let ids: Vec<Ident> = pws.iter().enumerate().map(|(i, p)| Ident::new(&format!("id{}", i), p, &mut rng)).collect();
+    let peer = Ident::new("peer", "peer-pw", &mut rng);
+    let eph: Vec<([u8; 32], [u8; 32])> = (0..pws.len()).map(|_| (rng.arr32(), rng.arr32())).collect();
+    par_for(pws.len(), crate::util::ncpu(), |i| {
+        let w = &pws[i];
+        let case = |what: &str, o: &crate::cli::Output| json!({"what": what, "password": w, "password_hex": hex(w.as_bytes()), "exit": o.exit.describe(), "stderr": o.stderr_s()});
+        // (a) specification-made password file -> tool
+        let f = refspec::encode_pass_file(w.as_bytes(), &salts[i], &pt, &[65536, 321]);
+        let fp = wdp.write(&format!("spec{}.ktl", i), &f);
+        let o = Cmd::new(&wdp.path, &["password", "decrypt", fp.to_str().unwrap(), "--env-pass"]).pass(w).run();
+        ctx.eval();
+        if o.exit == Exit::Code(0) && o.stdout == pt {
+            ctx.seen("cli decrypts a specification-made password file");
+            ctx.distinct(&format!("cli|spec->tool|{}", i));
+        } else if o.exit == Exit::Timeout {
+            ctx.inconclusive("C06 cli: timeout");
+        } else {
+            ctx.violation("C06:cli:conforming-password-file-not-decrypted-by-the-tool", case("password decrypt of a specification-made file", &o));
+        }
+        // (b) tool-made password file -> specification
+        let o = Cmd::new(&wdp.path, &["password", "encrypt", "--env-pass"]).pass(w).stdin(Stdin::Bytes(pt.clone())).run();
+        ctx.eval();
+        match refspec::decode_pass_file(&o.stdout, w.as_bytes()) {
+            Ok(d) if o.exit == Exit::Code(0) && d.body.complete() && d.body.plaintext() == pt => {
+                ctx.seen("specification decrypts a tool-made password file");
+                ctx.distinct(&format!("cli|tool->spec|{}", i));
+            }
+            _ => ctx.violation("C06:cli:tool-made-password-file-does-not-conform", case("password encrypt, decoded by the specification under the exact password", &o)),
+        }
+        // (c) specification-locked key in a keyring -> the tool unlocks it, signs as it, decrypts to it
+        let kr = keyring_text(&[(&ids[i], true), (&peer, true)]);
+        wdp.write(&format!("kr{}.txt", i), kr.as_bytes());
+        let krn = format!("kr{}.txt", i);
+        let o = Cmd::new(&wdp.path, &["encrypt", "-t", "peer", "-f", &ids[i].name, "-k", &krn, "--env-pass"]).pass(w).stdin(Stdin::Bytes(b"hello".to_vec())).run();
+        ctx.eval();
+        match refspec::decode_key_file(&o.stdout, &peer.sk, &peer.pk) {
+            Ok(d) if o.exit == Exit::Code(0) && d.body.complete() && d.sender == ids[i].pk => {
+                ctx.seen("cli unlocks a specification-locked key and encrypts a conforming file");
+                ctx.distinct(&format!("cli|spec-key|{}", i));
+            }
+            _ => ctx.violation("C06:cli:conforming-locked-key-not-usable-by-the-tool", case("encrypt with a keyring whose sender key was locked by the specification", &o)),
+        }
+        let kf = refspec::encode_key_file(&peer.sk, &peer.pk, &ids[i].pk, &eph[i].0, &eph[i].1, &pt, &[65536, 321]).unwrap();
+        let kfp = wdp.write(&format!("k{}.ktl", i), &kf);
+        let o = Cmd::new(&wdp.path, &["decrypt", kfp.to_str().unwrap(), "-t", &ids[i].name, "-k", &krn, "--env-pass"]).pass(w).run();
+        ctx.eval();
+        if o.exit == Exit::Code(0) && o.stdout == pt && o.stderr_s().contains("peer") {
+            ctx.seen("cli decrypts a specification-made key file");
+            ctx.distinct(&format!("cli|spec-keyfile|{}", i));
+        } else {
+            ctx.violation("C06:cli:conforming-key-file-not-decrypted-by-the-tool", case("decrypt of a specification-made key file", &o));
+        }
+        // (d) tool-generated key -> specification unlock under the exact password
+        let o = Cmd::new(&wdp.path, &["key", "generate", "--env-pass"]).pass(w).stdin(Stdin::Bytes(b"gen\n".to_vec())).run();
+        ctx.eval();
+        let text = o.stdout_s();
+        let l = text.lines().find_map(|l| l.strip_prefix("PrivateKey = ")).unwrap_or("").trim().to_string();
+        let pkl = text.lines().find_map(|l| l.strip_prefix("PublicKey = ")).unwrap_or("").trim().to_string();
+        match refspec::unlock_sk(&l, w.as_bytes()) {
+            Ok(k) if Some(refspec::pubkey_of(&k)) == refspec::decode_pk(&pkl) => {
+                ctx.seen("specification unlocks a tool-generated key under the exact password");
+                ctx.distinct(&format!("cli|tool-key|{}", i));
+            }
+            _ => ctx.violation("C06:cli:tool-generated-key-does-not-conform", case("key generate, unlocked by the specification under the exact password", &o)),
+        }
+    });
+}
+
 pub fn run(ctx: &Ctx) {
     ctx.rule(
         "(1) key_encrypt/pass_encrypt with injected ephemeral/payload/salt under scripted short reads; the output is decoded by the OpenSSL-based \
          specification to learn the chunking chosen, re-encoded by the specification and compared byte for byte; (2) specification-made files with arbitrary \
          legal chunkings (1..65536, tiny, mixed) must decrypt to the plaintext and sender; (3) exported Noise functions with arbitrary prologues and the Noise \
          AEAD nonce over the whole u64 range vs the specification; (4) small scope: every chunking of every |P|<=L; (5) golden files written by the pinned \
-         tree and the repository fixtures. distinct_nontrivial counts distinct tuples with >=2 chunks (or empty plaintext), distinct counters, golden files",
+         tree and the repository fixtures; (6) the shipped tool against the specification in both directions with whitespace-edged passwords. distinct_nontrivial counts distinct tuples with >=2 chunks (or empty plaintext), distinct counters, golden files",
     );
     ctx.assume("the specification in refspec.rs is a faithful reading of docs/file-format.txt, Noise rev 34 and the RFCs (anchored by published vectors and the repository fixtures)");
     ctx.assume("'earlier 1.x releases' are represented only by the two fixtures in the repository; no older binaries exist offline");
@@ -467,6 +545,10 @@ pub fn run(ctx: &Ctx) {
     small_bodies(ctx);
     noise_differential(ctx);
     golden_block(ctx);
+    cli_conformance(ctx);
+    ctx.require("cli decrypts a specification-made password file", 6);
+    ctx.require("specification decrypts a tool-made password file", 6);
+    ctx.require("cli unlocks a specification-locked key", 6);
     ctx.require("encryptor==spec key mode", 20);
     ctx.require("encryptor==spec password mode", 10);
     ctx.require("decryptor accepts spec-made", 40);
